@@ -22,7 +22,7 @@ use rustc_middle::mir::{
     AggregateKind, AssertKind, BasicBlock, Body, Const, Operand, Place, ProjectionElem, Rvalue,
     StatementKind, TerminatorKind, UnwindAction,
 };
-use rustc_middle::ty::print::{with_crate_prefix, with_no_trimmed_paths};
+use rustc_middle::ty::print::{with_crate_prefix, with_no_trimmed_paths, with_no_visible_paths};
 use rustc_middle::ty::{self, Instance, Ty, TyCtxt, TypingEnv};
 use rustc_span::Span;
 
@@ -105,8 +105,19 @@ fn qualify(s: String) -> String {
     out
 }
 
+static WORKSPACE: std::sync::OnceLock<Vec<String>> = std::sync::OnceLock::new();
+
 fn path_of(tcx: TyCtxt<'_>, did: DefId) -> String {
-    qualify(with_crate_prefix!(with_no_trimmed_paths!(tcx.def_path_str(did))))
+    // items of workspace crates are printed with their canonical definition path (not the
+    // shortest visible re-export), so a callee seen from another crate names the same
+    // string as the body exported by its own crate
+    let cname = tcx.crate_name(did.krate).to_string();
+    let ws = WORKSPACE.get().map(|w| w.iter().any(|c| *c == cname)).unwrap_or(false);
+    if ws && !did.is_local() {
+        qualify(with_no_visible_paths!(with_no_trimmed_paths!(tcx.def_path_str(did))))
+    } else {
+        qualify(with_crate_prefix!(with_no_trimmed_paths!(tcx.def_path_str(did))))
+    }
 }
 
 fn ty_str(ty: Ty<'_>) -> String {
@@ -970,6 +981,7 @@ fn main() {
         && !args.iter().any(|a| a == "-vV");
     if wanted {
         let _ = CRATE.set(crate_name.clone());
+        let _ = WORKSPACE.set(allow.split(',').map(|s| s.to_string()).collect());
         let mut cb = Extract { crate_name, out_dir };
         rustc_driver::run_compiler(&args, &mut cb);
     } else {
